@@ -727,7 +727,7 @@ fn fat_cases(rng: &mut Rng, n_single: usize, n_multi: usize) -> Vec<Case> {
             let c1 = peek(&seed, e + 26, 2);
             if c1 >= 2 && !free { used_clusters.push(c1 as usize); }
             fields.push(Field { off: e, width: 1, name: format!("{}.name0", tag), vals: vec![0, 5, 0x20, 0x2e, 0x41, 0x7f, 0x80, 0xe5, 0xff] });
-            for j in [1usize, 7, 8, 10] { fields.push(Field { off: e + j, width: 1, name: format!("{}.name[{}]", tag, j), vals: vec![0, 0x20, 0x2e, 0x2f, 0x41, 0x61, 0x7f, 0x80, 0xff] }); }
+            for j in [1usize, 7, 8, 10] { fields.push(Field { off: e + j, width: 1, name: format!("{}.name[{}]", tag, j), vals: vec![0, 0x20, 0x2a, 0x2e, 0x2f, 0x3f, 0x41, 0x61, 0x7f, 0x80, 0xff] }); }
             fields.push(Field { off: e + 11, width: 1, name: format!("{}.attr", tag), vals: vec![0, 1, 2, 4, 8, 0x0f, 0x10, 0x18, 0x20, 0x30, 0x40, 0xff] });
             fields.push(Field { off: e + 13, width: 1, name: format!("{}.tenths", tag), vals: vec![0, 199, 200, 255] });
             for (o, nm) in [(14usize, "ctime"), (16, "cdate"), (18, "adate"), (22, "wtime"), (24, "wdate")] {
@@ -771,15 +771,55 @@ fn fat_cases(rng: &mut Rng, n_single: usize, n_multi: usize) -> Vec<Case> {
             }
         }
     }
-    let mut cs = cases_from_fields("fat", &seed, 512, &names, &extra, &fields, rng, n_single, n_multi);
-    for c in cs.iter_mut() { c.tie = false; }
+    let cs = cases_from_fields("fat", &seed, 512, &names, &extra, &fields, rng, n_single, n_multi);
     out.extend(cs);
     for (depth, fan) in [(4usize, 2usize), (10, 2), (16, 2), (20, 2), (24, 2), (8, 4), (12, 4)] {
         if let Some(b) = fat_dag(depth, fan) {
             out.push(Case { fs: "fat", bytes: b, unit: 512, desc: format!("dag depth={} fan={}", depth, fan), names: vec!["A/A/A/A/F.TXT".to_string()], extra: extra.clone(), trivial: false, tie: false });
         }
     }
+    // directed: the BPB's sector size differs from the image's (two or three fields, so that `verify` still accepts the sector);
+    // a stored name with a wildcard character is listed and then fetched
+    for (tag, pokes) in [("bps1024-root224", vec![(11usize, 2usize, 1024u64), (17, 2, 224)]), ("bps1024-root0-fat1x1", vec![(11, 2, 1024), (17, 2, 0), (22, 2, 1), (16, 1, 1)]),
+                         ("bps2048-root448-spc1", vec![(11, 2, 2048), (17, 2, 448), (13, 1, 1)]), ("bps4096-root128", vec![(11, 2, 4096), (17, 2, 128)])] {
+        let mut b = seed.clone(); for (o, w, v) in pokes { poke(&mut b, o, w, v); }
+        out.push(Case { fs: "fat", bytes: b, unit: 512, desc: format!("directed {}", tag), names: names.clone(), extra: extra.clone(), trivial: false, tie: false });
+    }
+    for (k, ch) in [(1usize, b'*'), (3, b'?'), (9, b'*')] {
+        let e = g.root_sec * g.bps + 32; // the first file entry behind the label
+        let mut b = seed.clone(); b[e + k] = ch;
+        out.push(Case { fs: "fat", bytes: b, unit: 512, desc: format!("directed root.e1.name[{}]:={}", k, ch), names: names.clone(), extra: extra.clone(), trivial: false, tie: false });
+    }
+    // the model tie: the model reads sector `n` as unit `n`, the code goes through `get_chs` with the BPB's geometry — the same
+    // thing exactly when the BPB's sectors per track and heads are the image's
+    let (sz, wf, lf) = fat_probes(&seed);
+    let (spt0, heads0) = (peek(&seed, 24, 2), peek(&seed, 26, 2));
+    for c in out.iter_mut() {
+        c.tie = !c.desc.starts_with("dag ") && peek(&c.bytes, 24, 2) == spt0 && peek(&c.bytes, 26, 2) == heads0;
+        c.extra = format!("{} {} {}", sz as u8, wf as u8, lf as u8);
+    }
     out
+}
+
+/// probes of the real code: (repair `c12fat-sector-size-mismatch` present, repair `c12fat-get-wildcard` present, the volume label
+/// is addressable as a file = `build_files` as at the pinned snapshot)
+fn fat_probes(seed: &[u8]) -> (bool, bool, bool) {
+    static P: std::sync::OnceLock<(bool, bool, bool)> = std::sync::OnceLock::new();
+    *P.get_or_init(|| {
+        let sz = (|| -> Option<bool> {
+            let mut b = seed.to_vec(); poke(&mut b, 11, 2, 1024); poke(&mut b, 17, 2, 224);
+            let img = a2kit::img::dsk_img::Img::from_bytes(&b).ok()?;
+            let mut bimg: Box<dyn DiskImage> = Box::new(img);
+            Some(!guarded(|| a2kit::fs::fat::Disk::test_img(&mut bimg)).unwrap_or(true))
+        })().unwrap_or(true);
+        let mount = || -> Option<Box<dyn DiskFS>> {
+            let img = a2kit::img::dsk_img::Img::from_bytes(&seed.to_vec()).ok()?;
+            Some(Box::new(a2kit::fs::fat::Disk::from_img(Box::new(img), None).ok()?))
+        };
+        let wf = match mount() { Some(mut d) => guarded(|| d.get("A*").is_ok()).is_ok(), None => true };
+        let lf = match mount() { Some(mut d) => guarded(|| d.get("VOLNAME").is_ok()).unwrap_or(false), None => false };
+        (sz, wf, lf)
+    })
 }
 
 fn fat_exercise(bytes: &Vec<u8>, names: &[String]) -> (Vec<Call>, bool) {
@@ -1294,10 +1334,13 @@ fn child(ctx: &mut Ctx, start: usize, rec_path: &str) {
                     // the tie: same classes from the model
                     let got: Vec<String> = toks.iter().filter(|t| t.starts_with("get:")).map(|t| t[4..].split(':').next().unwrap_or("").to_string()).collect();
                     let (mbytes, munit): (&[u8], usize) = match &munits { Some((u, f)) => (&f[..], *u), None => (&c.bytes[..], c.unit) };
-                    let req = format!("c12fs {} {} {}{}", match c.fs { "d13" => "dos", "cpk" => "cpm", x => x }, sparse_units(mbytes, munit),
+                    // FAT: the implementation's tokens travel with the request (echoed where the model answers `unmodelled`)
+                    let qtoks: Vec<String> = toks.clone();
+                    let req = format!("c12fs {} {} {}{}{}", match c.fs { "d13" => "dos", "cpk" => "cpm", x => x }, sparse_units(mbytes, munit),
                         if got.is_empty() { "-".to_string() } else { got.join(",") },
-                        if c.extra.is_empty() { String::new() } else { format!(" {}", c.extra) });
-                    r.line(format!("Q\t{}\t{}", req, toks.join(" ")));
+                        if c.extra.is_empty() { String::new() } else { format!(" {}", c.extra) },
+                        if c.fs == "fat" { format!(" {}", qtoks.join(",")) } else { String::new() });
+                    r.line(format!("Q\t{}\t{}", req, qtoks.join(" ")));
                 }
                 r.line(format!("D\t{}:{}{}\t1", c.fs, if mounted { "mounted" } else { "not-mounted" }, if any_panic { ":panic" } else { "" }));
                 match (&fail, mounted) {
